@@ -5,6 +5,7 @@ package main
 
 import (
 	"fmt"
+	"hash/fnv"
 	"math/big"
 	"sort"
 	"strconv"
@@ -27,9 +28,9 @@ type Term struct {
 type termKind int
 
 const (
-	kApp termKind = iota
-	kConst        // declared 0-ary symbol
-	kLit          // literal
+	kApp   termKind = iota
+	kConst          // declared 0-ary symbol
+	kLit            // literal
 	kBoundVar
 	kQuant
 )
@@ -553,13 +554,45 @@ func Store(a, i, v *Term) *Term {
 var namedConstArrays = map[string][2]*Term{}
 
 func ConstArray(sort string, v *Term) *Term {
-	if len(v.Args) == 0 && v.Sort == "UUID" {
-		name := "constarr_" + strings.NewReplacer("(", "", ")", "", " ", "_").Replace(sort) + "_" + v.Op
+	if !isSyntacticValue(v) {
+		h := fnv.New32a()
+		h.Write([]byte(v.String()))
+		name := "constarr_" + strings.NewReplacer("(", "", ")", "", " ", "_").Replace(sort) + "_" + fmt.Sprintf("%08x", h.Sum32())
 		c := Const(name, sort)
 		namedConstArrays[name] = [2]*Term{c, v}
 		return c
 	}
 	return App("const-array", sort, v)
+}
+
+// isSyntacticValue: numerals, booleans and constructor applications of such - what cvc5 accepts as the default of a const array.
+func isSyntacticValue(v *Term) bool {
+	if len(v.Args) == 0 {
+		if v.Op == "true" || v.Op == "false" {
+			return true
+		}
+		if v.Sort == "Int" {
+			for i, c := range v.Op {
+				if !(c >= '0' && c <= '9') && !(i == 0 && c == '-') {
+					return false
+				}
+			}
+			return v.Op != ""
+		}
+		return false
+	}
+	if strings.HasPrefix(v.Op, "mk_") || v.Op == "-" {
+		for _, a := range v.Args {
+			if !isSyntacticValue(a) {
+				return false
+			}
+		}
+		return true
+	}
+	if v.Op == "const-array" {
+		return isSyntacticValue(v.Args[0])
+	}
+	return false
 }
 
 func constArrayAxioms() []*Term {
